@@ -39,6 +39,9 @@ def gen_dyn_universe(rng: random.Random, ideal_origins=False, name_mode="unique"
     nl = rng.randint(4, 9) if not big else rng.randint(7, 10)
     no = rng.randint(2, 4)
     nd = rng.randint(2, 3)
+    huge = rng.random() < 0.04  # swarm: now and then a much larger network
+    if huge:
+        nn, nl, no, nd = rng.randint(10, 14), rng.randint(12, 18), rng.randint(4, 7), rng.randint(3, 5)
     kinds = ALL_ORIGIN_KINDS if ideal_origins else STEPPABLE_ORIGIN_KINDS
 
     def names(prefix, n):
@@ -56,12 +59,13 @@ def gen_dyn_universe(rng: random.Random, ideal_origins=False, name_mode="unique"
         "origins": [gen_origin_spec(rng, x, kinds) for x in names("O", no)],
         "dests": [gen_dest_spec(rng, x) for x in names("D", nd)],
         "junk": ["str"],
+        "huge": huge,
     }
 
 
 def gen_dyn_topology(rng: random.Random, uspec: dict) -> dict:
     for _ in range(50):
-        topo = gen_valid_topology(rng, uspec, allow_selfloop=False)
+        topo = gen_valid_topology(rng, uspec, allow_selfloop=False, max_interior=8 if uspec.get("huge") else 4)
         if topo["links"] and topo_is_valid(topo, uspec):
             return topo
     raise core.HarnessError("could not draw a valid topology")
